@@ -100,22 +100,42 @@ impl<W: Write + Seek> DbcWriter<W> {
         // Add all strings from the record set
         for record in record_set.records() {
             for value in record.values() {
-                if let Value::StringRef(string_ref) = value {
-                    let string = record_set.get_string(*string_ref)?;
-
-                    if !string_offsets.contains_key(string) {
-                        let offset = string_block.len() as u32;
-                        string_offsets.insert(string.to_string(), offset);
-
-                        // Add the string to the block
-                        string_block.extend_from_slice(string.as_bytes());
-                        string_block.push(0); // Null terminator
-                    }
-                }
+                Self::collect_strings(value, record_set, &mut string_block, &mut string_offsets)?;
             }
         }
 
         Ok((string_block, string_offsets))
+    }
+
+    /// Add the strings referenced by a value, also inside arrays, to the string block
+    fn collect_strings(
+        value: &Value,
+        record_set: &RecordSet,
+        string_block: &mut Vec<u8>,
+        string_offsets: &mut HashMap<String, u32>,
+    ) -> Result<()> {
+        match value {
+            Value::StringRef(string_ref) => {
+                let string = record_set.get_string(*string_ref)?;
+
+                if !string_offsets.contains_key(string) {
+                    let offset = string_block.len() as u32;
+                    string_offsets.insert(string.to_string(), offset);
+
+                    // Add the string to the block
+                    string_block.extend_from_slice(string.as_bytes());
+                    string_block.push(0); // Null terminator
+                }
+            }
+            Value::Array(values) => {
+                for value in values {
+                    Self::collect_strings(value, record_set, string_block, string_offsets)?;
+                }
+            }
+            _ => {}
+        }
+
+        Ok(())
     }
 
     /// Write a record to the output
